@@ -1,42 +1,17 @@
 package interp
 
 import (
+	"go/token"
 	"go/types"
 	"reflect"
-	"regexp"
-	"strings"
+	"sync"
 	"time"
 )
 
 // zitiql.ParseZqlDatetime uses a package-level regexp and time.Parse, neither
-// of which is interpreted. For the concrete literal texts of the harness
-// families it is evaluated natively here (same steps as the source: strip
-// datetime( ), z->Z, t->T, RFC3339) and the result is brought into the
-// interpreter's representation of time.Time as a UTC instant.
-var dateTimeStripper = regexp.MustCompile(`^\s*datetime\(\s*(.*?)\s*\)\s*$`)
-
-func init() {
-	extraHooks = append(extraHooks, func(p *Program) {
-		p.hooks["github.com/openziti/storage/zitiql.ParseZqlDatetime"] = func(fr *frame, args []value) value {
-			text, ok := args[0].(string)
-			if !ok {
-				panic(abort{AbortUnsupported, "ParseZqlDatetime of a symbolic string"})
-			}
-			fr.i.noteStub("zitiql.ParseZqlDatetime: evaluated natively on the concrete literal (regexp + time.Parse), result kept as a UTC instant")
-			m := dateTimeStripper.FindAllStringSubmatch(text, -1)
-			if m == nil || len(m) != 1 || len(m[0]) != 2 {
-				return tuple{timeValue(time.Time{}), makeFmtError(fr.i, "could not parse datetime ("+text+")", nil)}
-			}
-			s := strings.Replace(m[0][1], "z", "Z", 1)
-			s = strings.Replace(s, "t", "T", 1)
-			t, err := time.Parse(time.RFC3339, s)
-			if err != nil {
-				return tuple{timeValue(time.Time{}), makeFmtError(fr.i, err.Error(), nil)}
-			}
-			return tuple{timeValue(t), iface{}}
-		}
-	})
-}
+// of which is interpreted. It is redirected (cmd/gosym/load.go) to
+// ast.VerifParseZqlDatetime, which looks the literal text up in the table that
+// /verif/gen/astgen produced by running the REAL function natively.
 
 func init() {
 	extraHooks = append(extraHooks, func(p *Program) {
@@ -46,7 +21,28 @@ func init() {
 			n := func(k int) int { return int(asInt64(args[k])) }
 			return timeValue(time.Date(n(0), time.Month(n(1)), n(2), n(3), n(4), n(5), n(6), time.UTC))
 		}
+		p.hooks[rtPkg+".ZonedTime"] = func(fr *frame, args []value) value {
+			t := time.Unix(asInt64(args[0]), asInt64(args[1]))
+			if args[3].(bool) {
+				return timeValue(t)
+			}
+			return timeValueZone(t.In(time.FixedZone("", int(asInt64(args[2])))))
+		}
 		p.hooks["time.Unix"] = func(fr *frame, args []value) value {
+			_, s0 := args[0].(*sym)
+			_, s1 := args[1].(*sym)
+			if s0 || s1 {
+				// symbolic instant: the representation without a monotonic reading is
+				// wall = nsec, ext = seconds since year 1; nsec must already be
+				// normalised (0 <= nsec < 1e9), which is asserted as a path assumption
+				ps := fr.i.es.ps
+				inRange := andVal(binop(token.GEQ, nil, args[1], int64(0)), binop(token.LSS, nil, args[1], int64(1000000000)))
+				ps.Assume(inRange)
+				const unixToInternal = int64((1969*365 + 1969/4 - 1969/100 + 1969/400) * 86400)
+				ext := binop(token.ADD, nil, args[0], unixToInternal)
+				wall := conv(types.Typ[types.Uint64], types.Typ[types.Int64], args[1])
+				return structure{wall, ext, (*value)(nil)}
+			}
 			return timeValue(time.Unix(asInt64(args[0]), asInt64(args[1])))
 		}
 		p.hooks["(time.Time).UTC"] = func(fr *frame, args []value) value {
@@ -60,6 +56,33 @@ func init() {
 		p.hooks["(time.Time).Location"] = func(fr *frame, args []value) value { return (*value)(nil) }
 	})
 }
+
+// zoneCells: one stand-in *time.Location per non-UTC offset. The executor never
+// looks inside a Location (every method that would is hooked); what matters is
+// that a time carrying a zone is a different struct value from the same
+// instant in UTC, exactly as in the real representation (loc == nil for UTC).
+var zoneCells = map[int]*value{}
+
+// timeValueZone keeps the zone of a parsed literal: same instant, non-nil loc
+// unless the literal is in UTC.
+func timeValueZone(t time.Time) value {
+	st := timeValue(t).(structure)
+	_, off := t.Zone()
+	if t.Location() == time.UTC {
+		return st
+	}
+	zoneMu.Lock()
+	defer zoneMu.Unlock()
+	c, ok := zoneCells[off]
+	if !ok {
+		var v value = structure{}
+		c = &v
+		zoneCells[off] = c
+	}
+	return structure{st[0], st[1], c}
+}
+
+var zoneMu sync.Mutex
 
 // timeValue converts a native time.Time (as UTC) into the interpreter's
 // structure for time.Time{wall uint64, ext int64, loc *Location}.
